@@ -11,6 +11,11 @@ def kauri_case(seed, prop, i, nmax=40):
     nonneg = bool(rng.random() < 0.1)
     kind = "nonneg" if nonneg else ["blobs", "ties", "constcol", "duprows", "ties"][int(rng.integers(0, 5))]
     X = gen.make_data(rng, n, d, kind, centers=int(rng.integers(1, 6)))
+    unit = 0
+    if rng.random() < 0.25:
+        # data recorded in other units: thresholds are data values, so they come out as 3.5e-10, 2.7e+20, ...
+        unit = int(rng.integers(-30, 31))
+        X = X * 10.0 ** unit
     p = {"random_state": gen.subseed(rng) % 100000, "max_clusters": int(rng.integers(1, 9))}
     if rng.random() < 0.6:
         p["max_depth"] = int(rng.integers(1, 5))
@@ -34,23 +39,25 @@ def kauri_case(seed, prop, i, nmax=40):
         X = gen.make_data(rng, n, d, kind)
     if p["kernel"] == "precomputed":
         y = gen.sym_matrix(rng, n, ["psd", "indefinite"][int(rng.integers(0, 2))])
-    return rng, X, y, p, {"n": n, "d": d, "data": kind}
+    return rng, X, y, p, {"n": n, "d": d, "data": kind, "log10_unit": unit}
 
 
 def query_points(rng, X, tree, m=25):
     """fresh points, points exactly on thresholds, training points"""
     n, d = X.shape
-    Q = [rng.normal(scale=4.0, size=(m, d)), X[rng.integers(0, n, size=min(m, n))]]
+    spread = float(np.max(np.abs(X))) if X.size else 1.0
+    spread = spread if spread > 0 else 1.0
+    Q = [rng.normal(scale=1.5 * spread, size=(m, d)), X[rng.integers(0, n, size=min(m, n))]]
     thr = [(f, t) for f, t in zip(tree.features, tree.thresholds) if f is not None]
     for (f, t) in thr:
-        q = rng.normal(scale=3.0, size=(3, d))
+        q = rng.normal(scale=spread, size=(3, d))
         q[0, f] = t
         q[1, f] = np.nextafter(t, np.inf)
         q[2, f] = np.nextafter(t, -np.inf)
         Q.append(q)
     if thr:
         # points sitting on several thresholds at once
-        q = rng.normal(scale=3.0, size=(4, d))
+        q = rng.normal(scale=spread, size=(4, d))
         for (f, t) in thr:
             q[:, f] = t
         Q.append(q)
